@@ -32,10 +32,17 @@ pub const CAP: usize = 200_000;
 /// Bytes of a source or of a slice of it (str and [u8]).
 pub trait Bytes {
     fn bytes_of(&self) -> &[u8];
+    /// true for str sources (positions must be char boundaries)
+    fn textual(&self) -> bool {
+        false
+    }
 }
 impl Bytes for str {
     fn bytes_of(&self) -> &[u8] {
         self.as_bytes()
+    }
+    fn textual(&self) -> bool {
+        true
     }
 }
 impl Bytes for [u8] {
@@ -77,6 +84,7 @@ where
     let mut stack_lo = usize::MAX;
     let mut stack_hi = 0usize;
     let mut nev = 0usize;
+    let _ = cb::take_log();
     let mut lex: Lexer<'s, T> = if req.partial {
         Lexer::new_partial(src)
     } else {
@@ -115,8 +123,7 @@ where
         n += 1;
         match item {
             Ok(t) => {
-                let name = format!("{t:?}");
-                let name = name.split('(').next().unwrap().to_string();
+                let name = clean(&format!("{t:?}"));
                 let _ = write!(out, "[\"ok\",\"{}\",{},{}", name, sp.start, sp.end);
             }
             Err(e) => {
@@ -144,6 +151,17 @@ where
         ev_dump(out);
         out.push(']');
         let _ = logos::verif::finish();
+    }
+    let cbs = cb::take_log();
+    if !cbs.is_empty() {
+        out.push_str(",\"cbs\":[");
+        for (i, (a, b, ok)) in cbs.iter().enumerate() {
+            if i > 0 {
+                out.push(',');
+            }
+            let _ = write!(out, "[{},{},{}]", a, b, ok);
+        }
+        out.push(']');
     }
     // one more call: None must be stable (C03)
     if !capped {
